@@ -10,7 +10,7 @@ ID = "C03"
 TOL = 2000  # us: "only events within about 2 ms of an edge may go either way"
 RULE = (
     "case = backend x base instant (boundary-biased) x 1..10 events (offset 0..100 s on a ms grid, duration from {0, 1 us, 999 us, 1 ms, 24 h} + uniform <= 50 s, "
-    "so nesting/overlap/adjacency are the norm) x 1..5 windows (start None | any us in [-5 s, 105 s] | near any event edge incl. the end of a 24 h event; length None | 0 | sub-ms | any; given at a random UTC offset) x "
+    "so nesting/overlap/adjacency are the norm), optionally followed by 1..4 modifications (replace / replace_last with a new instant, delete, late insert) so that the contents are the result of a history, x 1..5 windows (start None | any us in [-5 s, 105 s] | near any event edge incl. the end of a 24 h event; length None | 0 | sub-ms | any; given at a random UTC offset) x "
     "limits from {-7,-1,0,1,2,3,100}. Oracle with the stored intervals known exactly from the generator and TOL = 2 ms: MUST (reaches into the window by more than "
     "TOL) subset-of returned subset-of MUST+MAY, no duplicates, timestamps non-increasing, each returned event == the stored event or the stored event cut to the "
     "window (edges within TOL, id/data untouched); limit n>0 -> min(n,|full|) entries whose timestamps are the first n of the unlimited read and which are a "
@@ -68,7 +68,11 @@ def strategy(draw, tier="quick"):
         else:
             ln = draw(st.integers(0, 60 * 10**6))
         wins.append({"s": s, "len": ln, "end_abs": draw(st.integers(-5 * 10**6, 105 * 10**6)), "tz": draw(gen.offsets()), "tz2": draw(gen.offsets())})
-    return {"backend": draw(st.sampled_from(stores.BACKENDS)), "base": base, "events": evs, "windows": wins, "limits": draw(st.lists(st.sampled_from([-7, -1, 0, 1, 2, 3, 100]), min_size=1, max_size=3, unique=True))}
+    mods = []
+    for _ in range(draw(st.sampled_from([0, 0, 1, 2, 4]))):
+        kind = draw(st.sampled_from(["replace", "replace", "replace_last", "delete", "insert"]))
+        mods.append({"op": kind, "k": draw(st.integers(0, 20)), "off_ms": draw(st.one_of(st.integers(0, 20), st.integers(0, 100_000))), "dur_us": draw(st.sampled_from([0, 1000, 10**6, 5 * 10**6, 50 * 10**6]))})
+    return {"backend": draw(st.sampled_from(stores.BACKENDS)), "base": base, "events": evs, "mods": mods, "windows": wins, "limits": draw(st.lists(st.sampled_from([-7, -1, 0, 1, 2, 3, 100]), min_size=1, max_size=3, unique=True))}
 
 
 def known_key(case, v):
@@ -101,6 +105,27 @@ def run_case(case):
             for i, e in enumerate(case["events"]):
                 r = b.insert(stores.mk_event(Event, {"us": base + e["off_ms"] * 1000, "off": 0, "dur_us": e["dur_us"], "data": {"i": i}}))
                 stored[r.id] = (base + e["off_ms"] * 1000, base + e["off_ms"] * 1000 + e["dur_us"], i)
+            # the bucket's contents may also be the result of a history: events re-timed by replace / replace_last, deleted, added later
+            for j, m in enumerate(case.get("mods", [])):
+                ids_now = sorted(stored)
+                new = (base + m["off_ms"] * 1000, base + m["off_ms"] * 1000 + m["dur_us"], 1000 + j)
+                ev = stores.mk_event(Event, {"us": new[0], "off": 0, "dur_us": m["dur_us"], "data": {"i": new[2]}})
+                if m["op"] == "insert" or not ids_now:
+                    stored[b.insert(ev).id] = new
+                elif m["op"] == "delete":
+                    eid = ids_now[m["k"] % len(ids_now)]
+                    b.delete(eid)
+                    del stored[eid]
+                elif m["op"] == "replace":
+                    eid = ids_now[m["k"] % len(ids_now)]
+                    b.replace(eid, ev)
+                    stored[eid] = new
+                else:
+                    last = b.get(limit=1)
+                    if len(last) != 1 or last[0].id not in stored:
+                        raise Violation(f"{be}: limit-1 read on a non-empty bucket returned {last!r}")
+                    b.replace_last(ev)
+                    stored[last[0].id] = new
         ivs = sorted(v[:2] for v in stored.values())
         overlap = any(y[0] < x[1] for x, y in zip(ivs, ivs[1:])) or any(x[0] <= y[0] and y[1] <= x[1] and x != y for x in ivs for y in ivs)
         for w in case["windows"]:
